@@ -255,6 +255,31 @@ func c11Run(ioType byte, fillerLen int, c c11Case, res *TaskResult) (v *Violatio
 				return v, fileBytes, startOff
 			}
 		}
+		// a SHORT write (Standard I/O): the device stores the first half of the record and then fails. Nothing was
+		// appended as far as the caller knows: size and the next position stay, the half record must not be in the way
+		if ioType == 0 {
+			iorec.Before = func(op, path, path2 string, n int64) error {
+				if op == "write" && n > 1 {
+					return &iorec.ShortWrite{N: int(n / 2)}
+				}
+				return nil
+			}
+			rec := datafile.LogRecord{Key: []byte("h"), Value: patternBytes(50, 16)}
+			_, werr := df.WriteLogRecord(&rec, hdr)
+			iorec.Before = saveBefore
+			if werr == nil {
+				return fail("write-error-swallowed", "the device stored half of the record and failed, but WriteLogRecord returned nil"), fileBytes, startOff
+			}
+			if got := df.Size(); got != prevEnd {
+				return fail("logical-size", "after a short write: DataFile.Size() = %d, end of the last record = %d", got, prevEnd), fileBytes, startOff
+			}
+			if v := writeOne(recSpec{Key: "w", VLen: 6}, 17, "append after a short write"); v != nil {
+				return v, fileBytes, startOff
+			}
+			if v := verify(df, "after short write+append"); v != nil {
+				return v, fileBytes, startOff
+			}
+		}
 		// the same for a staged group: a refused FlushStaged appends nothing, and the records it was given are gone -
 		// the next group consists of its own records only
 		if c.Staged {
